@@ -372,8 +372,19 @@ func (e *Exec) globalAddr(st *State, g *ssa.Global) Val {
 		e.globals[g] = r
 	}
 	if _, ok := st.cell[r]; !ok {
+		if e.globalInit == nil {
+			e.globalInit = map[*ssa.Global]Term{}
+		}
+		if t0, seen := e.globalInit[g]; seen {
+			// the same initial value in every state that has not written the global
+			st.cell[r] = e.wrap(st, t0, "global")
+			return Val{K: vAddr, R: r}
+		}
 		elem := g.Type().(*types.Pointer).Elem()
 		gv := e.freshVal(st, "g_"+g.Name(), elem, "global", True)
+		if gv.K != vNone {
+			e.globalInit[g] = e.toTerm(st, gv)
+		}
 		st.cell[r] = gv
 		if g.Pkg != nil && g.Pkg.Pkg.Path() == "os" && g.Name() == "Args" && gv.K == vSlice {
 			// os.Args always holds the program name
